@@ -33,6 +33,8 @@ R5 (K2) _handle_lock_contention: force_break(other_holder) is reachable only whe
    other_holder.is_lock_holder_known_dead() and the locks.steal_dead option hold; break_lock breaks only after the user confirmed the examined holder info.
 R6 (K10) src/lockdir.rs is_lock_holder_known_dead: is_local_pid_dead is the tail call and is preceded by early
    `return false` guards on hostname != ours, user != ours and a missing pid.
+Added while testing against seeded changes: R5b break_lock hands force_break the holder info peeked before the prompt
+(no re-peek after the confirmation).
 Does not decide: interleavings, nor exclusivity of the transport's rename.
 """
 ASSUMPTIONS = ["transport.rename onto an existing non-empty directory fails (exclusive rename); the nonce re-read covers transports where it does not"]
